@@ -131,6 +131,18 @@ def gen_datetime(rng, fmt):
     if r < 0.1:
         d = rng.choice([lo, hi, datetime.datetime(2000, 2, 29, 12, 30, 59), datetime.datetime(2024, 2, 29),
                         datetime.datetime(1999, 12, 31, 23, 59, 59), datetime.datetime(2000, 1, 1)])
+    elif r < 0.2:
+        # wall-clock times that do not exist (or exist twice) in a time zone with daylight saving: a value is a value,
+        # whatever zone the process runs in (US rule: second Sunday of March 02:00-03:00, first Sunday of November 01:00-02:00)
+        year = rng.choice([2007, 2015, 2019, 2021, 2024, 2031])
+        if rng.random() < 0.7:
+            day = datetime.date(year, 3, 8)
+            day += datetime.timedelta(days=(6 - day.weekday()) % 7)
+            d = datetime.datetime(day.year, day.month, day.day, 2, rng.choice([0, 1, 30, 59]), rng.choice([0, 59]))
+        else:
+            day = datetime.date(year, 11, 1)
+            day += datetime.timedelta(days=(6 - day.weekday()) % 7)
+            d = datetime.datetime(day.year, day.month, day.day, 1, 30, 0)
     else:
         span = int((hi - lo).total_seconds())
         d = lo + datetime.timedelta(seconds=rng.randint(0, span))
